@@ -136,8 +136,10 @@ Definition file_agrees (reg : registry) (ign never : bool) (pcs : list pctx)
 
 (** case = (registry slice, ignore_sop_class, never_transcode, accepted contexts in A-ASSOCIATE-AC order,
             files with what was received for each) *)
-Definition check_case
-  (c : list (str * bool * bool) * bool * bool * list (N * str * str) * list (str * str * option (N * str))) : bool :=
+Definition case_t : Type :=
+  list (str * bool * bool) * bool * bool * list (N * str * str) * list (str * str * option (N * str)).
+(* the harness prints every case as [(term : ScuChoice.case_t)], so that [None] and [[]] are typed *)
+Definition check_case (c : case_t) : bool :=
   let '(regl, ign, never, pcl, fl) := c in
   let reg := map (fun t => let '(u, cf, da) := t in mk_ts u cf da) regl in
   let pcs := map (fun t => let '(i, ts, a) := t in mk_pc i ts a) pcl in
